@@ -21,7 +21,7 @@ const (
 
 type JTok struct {
 	Kind int
-	S    string
+	S    string // strings; for numbers optionally the source spelling (a decoder in UseNumber mode hands it on verbatim)
 	F    float64
 	B    bool
 }
@@ -100,7 +100,11 @@ func (s *JSONScript) Render() []byte {
 			out = append(out, '"')
 		case JNum:
 			sep()
-			out = append(out, strconv.FormatFloat(t.F, 'g', -1, 64)...)
+			if t.S != "" { // the numeral as spelled in the source
+				out = append(out, t.S...)
+			} else {
+				out = append(out, strconv.FormatFloat(t.F, 'g', -1, 64)...)
+			}
 		case JBool:
 			sep()
 			out = append(out, strconv.FormatBool(t.B)...)
